@@ -298,7 +298,7 @@ def _neg_zero_ok(g, w):
 
 
 def bundle_tasks(tier):
-    bs = [G_.B1, G_.B4] if tier == "quick" else G_.BUNDLES
+    bs = [G_.B1, G_.B2, G_.B4] if tier == "quick" else G_.BUNDLES
     scal = ["d"] if tier == "quick" else ["d", "f"]
     return [(b.name, s) for b in bs for s in scal]
 
